@@ -204,7 +204,18 @@ async def run_session(ctx, idx) -> None:
     host = HOSTS[idx % len(HOSTS)]
     w = simnet.World(rng, hosts=[host])
     try:
-        await asyncio.wait_for(w.connection.ensure_connection(), 30)
+        try:
+            await asyncio.wait_for(w.connection.ensure_connection(), 30)
+        except Exception as ex:  # noqa: BLE001
+            # an honest accessory with a strict parser could not make sense of what was written
+            conns = w.accessory.conns
+            raw = conns[0].raw_in if conns else b""
+            ctx.case("connect-failed", idx)
+            if raw and not conns[0].requests:
+                ctx.violation("request-unparseable-by-conformant-accessory", f"accessory received {raw[:120]!r} and could not find a CRLF-delimited request ({ex!r})", {"label": idx, "call": "connect"})
+            else:
+                ctx.mark_inconclusive(f"honest connection could not be established: {ex!r}")
+            return
         s = Session(ctx, w, host, idx)
         conn = s.conn
         # the plaintext phase: two pair-verify POSTs, each one transport call, canonical
